@@ -338,6 +338,9 @@ impl Gen {
             }
             _ => {}
         }
+        if rng.chance(1, 5) {
+            ops.push(InOp::GuardSibling);
+        }
         ops
     }
 
